@@ -27,8 +27,10 @@ import warnings
 
 import numpy as np
 
-from .. import common, tla
+from .. import common, fastimport, tla
 from ..common import Violation
+
+fastimport.install()
 
 PROP = "C17"
 ROUTINES = ["hutch_diag", "hutch_trace", "slq", "lanczos_default_start", "arnoldi_default_start",
@@ -570,7 +572,97 @@ def run_hutch(A, Md, k, rand, key, max_iters, tol):
 STAT_KEYS = [11, 23, 37, 41, 59, 67, 73, 89, 97, 101, 113, 127, 131, 149, 151, 163, 179, 181, 191, 199, 211, 223, 233, 241]
 
 
+def _hutch_worker(task):
+    """All Hutchinson runs for one operator.  Returns (violations, control runs, counters, samples)."""
+    idx, tier, oracle = task
+    C = hutch_catalog()
+    opid, nm_re, nm_im, ctor = hutch_ops(tier)[idx]
+    keys = STAT_KEYS[:8] if tier == "quick" else STAT_KEYS
+    iters_stat = 10 if tier == "quick" else 16
+    viol, runs, samples = [], [], []
+    cnt = {"stat": 0, "exact": 0, "det": 0, "zmax": 0.0}
+    A = ctor()
+    Md = np.array(C[nm_re], dtype=np.complex128) + (1j * np.array(C[nm_im]) if nm_im else 0)
+    n = Md.shape[0]
+    for k in range(-(n - 1), n):
+        o_re = oracle[f"{nm_re}|{k}"]
+        o_im = oracle[f"{nm_im}|{k}"] if nm_im else None
+        for rand in ("rademacher", "normal"):
+            tot = np.zeros(n - abs(k), dtype=np.complex128)
+            N = 0
+            bad = None
+            rp = {"kind": "hutch", "op": opid, "k": k, "rand": rand, "key": keys[0]}
+            for key in keys:
+                r = run_hutch(A, Md, k, rand, key, iters_stat, 0.0011)
+                if "exc" in r:
+                    bad = r["exc"]
+                    break
+                tot += r["mean"].astype(np.complex128) * (r["iters"] * r["bs"])
+                N += r["iters"] * r["bs"]
+                at = {"routine": "hutch_diag", "key": key, "k": k, "rand": rand, "op": opid}
+                if not r["g_same"]:
+                    viol.append(Violation(PROP, "global_state", f"hutch_diag {opid} k={k} {rand} key={key}", at,
+                                          "np.random.get_state() differs after the call", replay=dict(rp, key=key)))
+                if key == keys[0]:
+                    r["run"]["tid"] = f"{opid}|k={k}|{rand}|key={key}|maxit={iters_stat}|tol=0.0011"
+                    runs.append(r["run"])
+                    r2 = run_hutch(A, Md, k, rand, key, iters_stat, 0.0011)
+                    cnt["det"] += 1
+                    if "exc" in r2 or out_digest(r2["mean"]) != out_digest(r["mean"]):
+                        viol.append(Violation(PROP, "determinism", f"hutch_diag {opid} k={k} {rand} key={key}", at,
+                                              "second call with the same operator and key returned different bytes",
+                                              replay=dict(rp, key=key)))
+            if bad is not None:
+                viol.append(Violation(PROP, "bias", f"hutch_diag {opid} k={k} {rand}",
+                                      {"routine": "hutch_diag", "k": k, "rand": rand, "op": opid, "exc": bad["exc"]},
+                                      f"raised {bad['exc']}: {bad['msg']}", replay=rp))
+                continue
+            est = tot / N
+            for part, orc, val in (("re", o_re, est.real), ("im", o_im, est.imag)):
+                if orc is None:
+                    continue
+                exact = np.array(orc["diag"], dtype=np.float64)
+                var = np.array(orc["vrad" if rand == "rademacher" else "vnorm"], dtype=np.float64)
+                at = {"routine": "hutch_diag", "k": k, "rand": rand, "op": opid, "matrix": nm_re if part == "re" else nm_im}
+                for p in range(len(exact)):
+                    if var[p] == 0:
+                        cnt["exact"] += 1
+                        if val[p] != exact[p]:
+                            viol.append(Violation(
+                                PROP, "rademacher_exact" if rand == "rademacher" else "bias",
+                                f"hutch_diag {opid} k={k} {rand} entry {p}", at,
+                                f"zero-variance entry: estimate {val[p]!r} != exact {exact[p]!r} ({part})", replay=rp))
+                    else:
+                        cnt["stat"] += 1
+                        se = np.sqrt(var[p] / N)
+                        z = abs(val[p] - exact[p]) / se
+                        if np.isfinite(z):
+                            cnt["zmax"] = max(cnt["zmax"], float(z))
+                        if not z <= 6.0:
+                            viol.append(Violation(
+                                PROP, "bias", f"hutch_diag {opid} k={k} {rand} entry {p}", at,
+                                f"pooled estimate {val[p]:.6g} vs exact {exact[p]:.6g}: z = {z:.2f} > 6 "
+                                f"(se {se:.3g}, {N} probes over {len(keys)} keys) ({part})", replay=rp))
+            if len(samples) < 1 and k == 1:
+                samples.append(f"hutch {opid} k={k} {rand}: pooled {np.round(est, 3).tolist()} vs "
+                               f"{o_re['diag']} ({N} probes)")
+    # control contract: caps / tolerances / default key
+    for (k, rand, key, mi, tol) in control_configs(n, tier):
+        r = run_hutch(A, Md, k, rand, key, mi, tol)
+        if "exc" in r:
+            viol.append(Violation(PROP, "cap", f"hutch_diag {opid} k={k} {rand} max_iters={mi}",
+                                  {"routine": "hutch_diag", "k": k, "rand": rand, "op": opid, "exc": r["exc"]["exc"]},
+                                  f"raised {r['exc']['exc']}: {r['exc']['msg']}",
+                                  replay={"kind": "hutch", "op": opid, "k": k, "rand": rand, "key": key,
+                                          "max_iters": mi, "tol": tol}))
+            continue
+        r["run"]["tid"] = f"{opid}|k={k}|{rand}|key={key}|maxit={mi}|tol={tol}"
+        runs.append(r["run"])
+    return [v.to_json() for v in viol], runs, cnt, samples
+
+
 def hutch_part(tier, wd, viol, cov):
+    from concurrent.futures import ProcessPoolExecutor
     C = hutch_catalog()
     cat_text, cases = render_hutch_catalog(C)
     res = tla.run_tlc("HutchControl", "SPECIFICATION Spec\nINVARIANT EstimatorCorrect\nINVARIANT Emit\n", wd,
@@ -579,107 +671,34 @@ def hutch_part(tier, wd, viol, cov):
         raise tla.TLCError("HutchControl failed: " + res.error + "\n" + res.out[-2000:])
     if res.violated:
         # the coded estimator formula is biased on the model: report the counterexample case
-        m = [ln for ln in res.out.splitlines() if ln.startswith("ci = ") or "/\\ ci = " in ln]
+        m = [ln for ln in res.out.splitlines() if ln.strip().startswith("ci = ") or "/\\ ci = " in ln]
         ci = int(m[-1].split("=")[-1]) if m else 0
         c = cases[ci - 1] if ci else {}
         viol.append(Violation(PROP, "bias", f"model:{c.get('name')} k={c.get('k')}",
                               {"routine": "hutch_diag", "k": c.get("k"), "rand": "rademacher", "level": "model"},
-                              f"TLC: invariant {res.violated} fails for the coded estimator formula", replay=None))
-    oracle = {(r["name"], r["k"]): r for r in res.json_lines()}
-    if not res.violated and len(oracle) != len(cases):
+                              f"TLC: invariant {res.violated} fails for the estimator formula of the model", replay=None))
+        raise tla.TLCError("HutchControl: invariant " + str(res.violated) + " violated on the estimator model\n"
+                           + res.out[-1500:])
+    oracle = {f"{r['name']}|{r['k']}": r for r in res.json_lines()}
+    if len(oracle) != len(cases):
         raise tla.TLCError(f"HutchControl emitted {len(oracle)} of {len(cases)} cases")
     cov["hutch_model_cases"] = len(cases)
-    cov["hutch_model_states"] = res.distinct
-    keys = STAT_KEYS[:8] if tier == "quick" else STAT_KEYS
-    iters_stat = 10 if tier == "quick" else 16
-    runs = []
+    nops = len(hutch_ops(tier))
+    with ProcessPoolExecutor(max_workers=min(16, nops)) as ex:
+        parts = list(ex.map(_hutch_worker, [(i, tier, oracle) for i in range(nops)]))
+    runs, samples = [], []
     n_stat = n_exact = n_det = 0
     zmax = 0.0
-    samples = []
-    for opid, nm_re, nm_im, ctor in hutch_ops(tier):
-        A = ctor()
-        Md = np.array(C[nm_re], dtype=np.complex128) + (1j * np.array(C[nm_im]) if nm_im else 0)
-        n = Md.shape[0]
-        for k in range(-(n - 1), n):
-            if (nm_re, k) not in oracle:
-                continue
-            o_re = oracle[(nm_re, k)]
-            o_im = oracle[(nm_im, k)] if nm_im else None
-            for rand in ("rademacher", "normal"):
-                tot = np.zeros(n - abs(k), dtype=np.complex128)
-                N = 0
-                bad = None
-                for key in keys:
-                    r = run_hutch(A, Md, k, rand, key, iters_stat, 0.0011)
-                    if "exc" in r:
-                        bad = r["exc"]
-                        break
-                    tot += r["mean"].astype(np.complex128) * (r["iters"] * r["bs"])
-                    N += r["iters"] * r["bs"]
-                    if not r["g_same"]:
-                        viol.append(Violation(PROP, "global_state", f"hutch_diag {opid} k={k} {rand} key={key}",
-                                              {"routine": "hutch_diag", "key": key, "k": k, "rand": rand, "op": opid},
-                                              "np.random.get_state() differs after the call",
-                                              replay={"kind": "hutch", "op": opid, "k": k, "rand": rand, "key": key}))
-                    if key == keys[0]:
-                        r["run"]["tid"] = f"{opid}|k={k}|{rand}|key={key}|maxit={iters_stat}|tol=0.0011"
-                        runs.append(r["run"])
-                        r2 = run_hutch(A, Md, k, rand, key, iters_stat, 0.0011)
-                        n_det += 1
-                        if "exc" in r2 or out_digest(r2["mean"]) != out_digest(r["mean"]):
-                            viol.append(Violation(PROP, "determinism", f"hutch_diag {opid} k={k} {rand} key={key}",
-                                                  {"routine": "hutch_diag", "key": key, "k": k, "rand": rand, "op": opid},
-                                                  "second call with the same operator and key returned different bytes",
-                                                  replay={"kind": "hutch", "op": opid, "k": k, "rand": rand, "key": key}))
-                if bad is not None:
-                    viol.append(Violation(PROP, "bias", f"hutch_diag {opid} k={k} {rand}",
-                                          {"routine": "hutch_diag", "k": k, "rand": rand, "op": opid, "exc": bad["exc"]},
-                                          f"raised {bad['exc']}: {bad['msg']}",
-                                          replay={"kind": "hutch", "op": opid, "k": k, "rand": rand, "key": keys[0]}))
-                    continue
-                est = tot / N
-                for part, orc, val in (("re", o_re, est.real), ("im", o_im, est.imag)):
-                    if orc is None:
-                        continue
-                    exact = np.array(orc["diag"], dtype=np.float64)
-                    var = np.array(orc["vrad" if rand == "rademacher" else "vnorm"], dtype=np.float64)
-                    for p in range(len(exact)):
-                        if var[p] == 0:
-                            n_exact += 1
-                            if val[p] != exact[p]:
-                                viol.append(Violation(
-                                    PROP, "rademacher_exact" if rand == "rademacher" else "bias",
-                                    f"hutch_diag {opid} k={k} {rand} entry {p}",
-                                    {"routine": "hutch_diag", "k": k, "rand": rand, "op": opid, "matrix": nm_re},
-                                    f"zero-variance entry: estimate {val[p]!r} != exact {exact[p]!r} ({part})",
-                                    replay={"kind": "hutch", "op": opid, "k": k, "rand": rand, "key": keys[0]}))
-                        else:
-                            n_stat += 1
-                            se = np.sqrt(var[p] / N)
-                            z = abs(val[p] - exact[p]) / se
-                            zmax = max(zmax, float(z))
-                            if not z <= 6.0:
-                                viol.append(Violation(
-                                    PROP, "bias", f"hutch_diag {opid} k={k} {rand} entry {p}",
-                                    {"routine": "hutch_diag", "k": k, "rand": rand, "op": opid, "matrix": nm_re},
-                                    f"pooled estimate {val[p]:.6g} vs exact {exact[p]:.6g}: z = {z:.2f} > 6 "
-                                    f"(se {se:.3g}, {N} probes over {len(keys)} keys) ({part})",
-                                    replay={"kind": "hutch", "op": opid, "k": k, "rand": rand, "key": keys[0]}))
-                if len(samples) < 4 and k in (0, 1):
-                    samples.append(f"hutch {opid} k={k} {rand}: pooled {np.round(est, 3).tolist()} vs "
-                                   f"{o_re['diag']} ({N} probes)")
-        # control contract: caps / tolerances / default key
-        for (k, rand, key, mi, tol) in control_configs(n, tier):
-            r = run_hutch(A, Md, k, rand, key, mi, tol)
-            if "exc" in r:
-                viol.append(Violation(PROP, "cap", f"hutch_diag {opid} k={k} {rand} max_iters={mi}",
-                                      {"routine": "hutch_diag", "k": k, "rand": rand, "op": opid, "exc": r["exc"]["exc"]},
-                                      f"raised {r['exc']['exc']}: {r['exc']['msg']}",
-                                      replay={"kind": "hutch", "op": opid, "k": k, "rand": rand, "key": key,
-                                              "max_iters": mi, "tol": tol}))
-                continue
-            r["run"]["tid"] = f"{opid}|k={k}|{rand}|key={key}|maxit={mi}|tol={tol}"
-            runs.append(r["run"])
+    for vj, rs, cnt, sm in parts:
+        for v in vj:
+            viol.append(Violation(v["property"], v["clause"], v["case"], v["attrs"], v["detail"], v["replay"]))
+        runs += rs
+        samples += sm
+        n_stat += cnt["stat"]
+        n_exact += cnt["exact"]
+        n_det += cnt["det"]
+        zmax = max(zmax, cnt["zmax"])
+    samples = samples[:3]
     # trace validation of the control events
     tpath = os.path.join(wd, "hutch.ndjson")
     with open(tpath, "w") as fh:
@@ -687,32 +706,27 @@ def hutch_part(tier, wd, viol, cov):
             fh.write(json.dumps(r) + "\n")
     os.environ["TRACE_FILE"] = tpath
     try:
-        tres = tla.run_tlc("Trace_Hutch", "SPECIFICATION Spec\nINVARIANT NeverBeyondCap\nINVARIANT Verdict\n", wd)
-        if tres.error or (tres.violated and tres.violated != "NeverBeyondCap"):
+        tres = tla.run_tlc("Trace_Hutch", "SPECIFICATION Spec\nINVARIANT Verdict\n", wd)
+        if tres.error or tres.violated:
             raise tla.TLCError(f"Trace_Hutch failed: {tres.error or tres.violated}\n" + tres.out[-2000:])
         verd = {v["tid"]: v for v in tres.json_lines()}
-        if len(verd) != len(runs) and not tres.violated:
+        if len(verd) != len(runs):
             raise tla.TLCError(f"Trace_Hutch judged {len(verd)} of {len(runs)} runs")
         for r in runs:
-            v = verd.get(r["tid"])
-            if v is None or v["st"] == "acc":
+            v = verd[r["tid"]]
+            if v["st"] == "acc":
                 continue
             clause = {"cap": "cap", "key_chain": "key_chain", "divisor": "divisor"}.get(v["why"], "control")
-            parts = dict(x.split("=") for x in r["tid"].split("|")[1:] if "=" in x)
+            f = r["tid"].split("|")
             viol.append(Violation(PROP, clause, "hutch control " + r["tid"],
-                                  {"routine": "hutch_diag", "op": r["tid"].split("|")[0], "k": int(parts.get("k", 0)),
-                                   "rand": r["tid"].split("|")[2], "why": v["why"]},
+                                  {"routine": "hutch_diag", "op": f[0], "k": int(f[1][2:]), "rand": f[2], "why": v["why"]},
                                   f"control trace rejected at event {v['at']} ({v['why']}); iterations so far {v['iters']}, "
                                   f"max_iters {r['maxit']}", replay={"kind": "hutch_control", "tid": r["tid"]}))
-        if tres.violated == "NeverBeyondCap":
-            viol.append(Violation(PROP, "cap", "hutch control", {"routine": "hutch_diag"},
-                                  "TLC: invariant NeverBeyondCap violated by a recorded run", replay=None))
-        # negative controls: drop a next_key event / inflate the divisor / add an iteration beyond the cap
-        negs = []
+        # negative controls: drop a next_key event / inflate the divisor / one iteration beyond the cap
         base = next(r for r in runs if len(r["ev"]) >= 5)
         b1 = json.loads(json.dumps(base))
         b1["tid"] = "neg:key_chain"
-        b1["ev"] = [e for i, e in enumerate(b1["ev"]) if not (e["e"] == "nk" and i == 2)]
+        b1["ev"] = [e for i, e in enumerate(b1["ev"]) if i != 2]
         b2 = json.loads(json.dumps(base))
         b2["tid"] = "neg:divisor"
         b2["ev"][-1]["div"] += 1
@@ -736,7 +750,7 @@ def hutch_part(tier, wd, viol, cov):
     cov.update({"hutch_runs_trace_validated": len(runs), "hutch_trace_states": tres.distinct,
                 "hutch_statistical_entries": n_stat, "hutch_exact_entries": n_exact, "hutch_zmax": round(zmax, 3),
                 "hutch_same_key_repeats": n_det, "hutch_negative_controls_rejected": rejected,
-                "hutch_keys_pooled": len(keys)})
+                "hutch_keys_pooled": 8 if tier == "quick" else len(STAT_KEYS)})
     return res, tres, samples, len(runs)
 
 
@@ -804,31 +818,32 @@ def run(tier):
     disc, restores, extra_disc = extract_model()
     acts = actions()
     depth = 4 if tier == "quick" else 5
-    sample_mod = 1 if tier == "quick" else 8
+    sample_mod = 5 if tier == "quick" else 8
     plan = [("psd6_f64_generic", depth), ("psd7_f32_gram", depth - 1)]
     wd = tla.make_build_dir(PROP)
     try:
-        # (1) TLC: all interleavings on the mechanism model
-        mc = {}
-        for d in sorted({p[1] for p in plan}):
-            sm = sample_mod if d == 5 else 1
-            r = tla.run_tlc("MC_Rng", "SPECIFICATION Spec\nINVARIANT DisciplineSound\nINVARIANT FlagsComplete\n"
-                            "INVARIANT Emit\n", wd,
-                            gen_files={"RngModel.tla": render_model(disc, restores, d, sm, common.seed() % max(sm, 1))})
-            if r.error or r.violated:
-                raise tla.TLCError(f"MC_Rng failed: {r.error or r.violated}\n" + r.out[-2000:])
-            mc[d] = (r, r.json_lines())
+        # (1) TLC: all interleavings up to `depth` on the mechanism model; every sample_mod-th longest one is printed,
+        #     which still covers every interleaving of length depth-1 as a prefix
+        mcr = tla.run_tlc("MC_Rng", "SPECIFICATION Spec\nINVARIANT DisciplineSound\nINVARIANT FlagsComplete\n"
+                          "INVARIANT Emit\n", wd,
+                          gen_files={"RngModel.tla": render_model(disc, restores, depth, sample_mod,
+                                                                  common.seed() % sample_mod)})
+        if mcr.error or mcr.violated:
+            raise tla.TLCError(f"MC_Rng failed: {mcr.error or mcr.violated}\n" + mcr.out[-2000:])
+        lines = mcr.json_lines()
+        nact = len(acts)
+        if len({tuple(ln["h"][:depth - 1]) for ln in lines}) != nact ** (depth - 1):
+            raise tla.TLCError("printed interleavings do not cover all prefixes of length depth-1")
         mark("tlc_mc_rng")
         # (2) execution of the interleavings
         trees = []
         model_bits = {}
         for opn, d in plan:
-            lines = mc[d][1]
-            seqs = [ln["h"] for ln in lines]
-            nodes = execute_tree(opn, seqs)
+            seqs = sorted({tuple(ln["h"][:d]) for ln in lines})
+            nodes = execute_tree(opn, [list(x) for x in seqs])
             trees.append((opn, nodes))
             for ln in lines:
-                h = tuple(ln["h"])
+                h = tuple(ln["h"][:d])
                 for j in range(1, len(h) + 1):
                     model_bits.setdefault((opn, h[:j]), (ln["vg"][j - 1], ln["vd"][j - 1]))
         mark("execute_interleavings")
@@ -890,7 +905,7 @@ def run(tier):
         mark("hutchinson")
     finally:
         common.cleanup(wd)
-    n_inter = sum(len(m[1]) for m in mc.values())
+    n_inter = len(lines)
     leaf_paths = [p for opn, nodes in trees for p in nodes if len(p) == dict(plan)[opn]]
     for r, d in sorted(disc.items()):
         if d != "keyed":
@@ -912,8 +927,8 @@ def run(tier):
                 first.setdefault(acts[p[0] - 1]["r"], set()).add(o)
         keyless = sorted(r for r, s in first.items() if len(s) == 1)
     cov.update({
-        "states": sum(m[0].distinct for m in mc.values()) + tres.distinct + hres.distinct + htres.distinct,
-        "transitions": sum(m[0].states for m in mc.values()) + tres.states + hres.states + htres.states,
+        "states": mcr.distinct + tres.distinct + hres.distinct + htres.distinct,
+        "transitions": mcr.states + tres.states + hres.states + htres.states,
         "traces_validated_against_impl": len(leaf_paths) + hruns,
         "evaluations": len(recs),
         "distinct_nontrivial": len({(opn, tuple(sorted(set(p)))) for opn, nodes in trees for p in nodes
@@ -924,7 +939,8 @@ def run(tier):
         "samples": [" ; ".join(act_str(acts[x - 1]) for x in p) for p in leaf_paths[:: max(1, len(leaf_paths) // 4)][:4]]
         + hsamples,
         "exhaustive": True,
-        "interleaving_depth": dict(plan), "deepest_level_sampled_1_in": sample_mod if depth == 5 else 1,
+        "interleaving_depth_model_checked": depth, "interleaving_depth_replayed": dict(plan),
+        "longest_interleavings_replayed_1_in": sample_mod, "interleavings_model_checked": sum(len(acts) ** j for j in range(1, depth + 1)),
         "interleavings_from_tlc": n_inter, "alphabet": len(acts),
         "recorded_events": len(recs), "events_rejected": len(bad),
         "negative_controls_rejected": neg_rejected + cov.get("hutch_negative_controls_rejected", 0),
